@@ -10,13 +10,25 @@ COQ_DEPS = ["C01"]
 PROFILES = ["debug"]
 CORR_IMPORT = "From RlibV Require Import C01.Model C01.Items C01.Spec C01.Corr C02.Corr.\nOpen Scope Z_scope."
 AUDIT_IMPORT = ("From Coq Require Import ZArith List Bool Arith.\nImport ListNotations.\n"
-                "From RlibV Require Import C01.Model C01.Items C01.Spec C01.Corr C02.Corr.\n")
+                "From RlibV Require Import C01.Model C01.Items C01.Spec C01.Laws C01.Corr C01.ProofsCore C01.ProofsTree "
+                "C02.Corr C02.Properties.\nOpen Scope nat_scope.\n")
 CASE_TYPE = "C02.Corr.case"
 EXPLAIN = "C02.Corr.explain"
 AXIOM_ALLOW = []
 SHARD = 700
 SEARCH_MAX = 1500
-THEOREMS = []
+THEOREMS = [
+    ('c02_lower_bound_spec',
+     "forall (T M V : Type) (merge : T -> T -> T) (update : T -> T -> T -> T) (modify : T -> M -> T) (push : T -> T -> T -> T * T * T) (obs : T -> V) (vmerge : V -> V -> V) (act : M -> V -> V) (Pending : T -> list M -> Prop), lawful merge update modify push obs vmerge act Pending -> forall (dflt : T) (f : T -> bool) (g : V -> bool), (forall x : T, f x = g (obs x)) -> forall (t : tree T) (vs : list V) (l : nat), RepT obs vmerge act Pending t vs -> l < tn t -> (forall k, l <= k -> k < tn t -> vmerge (obs dflt) (range vmerge (obs dflt) vs l k) = range vmerge (obs dflt) vs l k) -> (forall j k, l <= j -> j <= k -> k < tn t -> g (range vmerge (obs dflt) vs l j) = true -> g (range vmerge (obs dflt) vs l k) = true) -> exists t' res tr, lower_bound merge push dflt t l f = Some (t', res, tr) /\\ tn t' = tn t /\\ RepT obs vmerge act Pending t' vs /\\ match res with | Some r => l <= r /\\ r < tn t /\\ g (range vmerge (obs dflt) vs l r) = true /\\ (forall j, l <= j -> j < r -> g (range vmerge (obs dflt) vs l j) = false) | None => forall j, l <= j -> j < tn t -> g (range vmerge (obs dflt) vs l j) = false end"),
+    ('c02_lower_bound_trace',
+     "forall (T M V : Type) (merge : T -> T -> T) (update : T -> T -> T -> T) (modify : T -> M -> T) (push : T -> T -> T -> T * T * T) (obs : T -> V) (vmerge : V -> V -> V) (act : M -> V -> V) (Pending : T -> list M -> Prop), lawful merge update modify push obs vmerge act Pending -> forall (dflt : T) (f : T -> bool) (g : V -> bool), (forall x : T, f x = g (obs x)) -> forall (t : tree T) (vs : list V) (l : nat), RepT obs vmerge act Pending t vs -> l < tn t -> (forall k, l <= k -> k < tn t -> vmerge (obs dflt) (range vmerge (obs dflt) vs l k) = range vmerge (obs dflt) vs l k) -> exists t' res tr, lower_bound merge push dflt t l f = Some (t', res, tr) /\\ RepT obs vmerge act Pending t' vs /\\ (forall x, In x tr -> exists k, l <= k /\\ k < tn t /\\ obs x = range vmerge (obs dflt) vs l k)"),
+    ('c02_lower_bound_rev_spec',
+     "forall (T M V : Type) (merge : T -> T -> T) (update : T -> T -> T -> T) (modify : T -> M -> T) (push : T -> T -> T -> T * T * T) (obs : T -> V) (vmerge : V -> V -> V) (act : M -> V -> V) (Pending : T -> list M -> Prop), lawful merge update modify push obs vmerge act Pending -> forall (dflt : T) (f : T -> bool) (g : V -> bool), (forall x : T, f x = g (obs x)) -> forall (t : tree T) (vs : list V) (r : nat), RepT obs vmerge act Pending t vs -> r < tn t -> (forall k, k <= r -> vmerge (range vmerge (obs dflt) vs k r) (obs dflt) = range vmerge (obs dflt) vs k r) -> (forall j k, j <= k -> k <= r -> g (range vmerge (obs dflt) vs k r) = true -> g (range vmerge (obs dflt) vs j r) = true) -> exists t' res tr, lower_bound_rev merge push dflt t r f = Some (t', res, tr) /\\ tn t' = tn t /\\ RepT obs vmerge act Pending t' vs /\\ match res with | Some l => l <= r /\\ g (range vmerge (obs dflt) vs l r) = true /\\ (forall j, l < j -> j <= r -> g (range vmerge (obs dflt) vs j r) = false) | None => forall j, j <= r -> g (range vmerge (obs dflt) vs j r) = false end"),
+    ('c02_lower_bound_rev_trace',
+     "forall (T M V : Type) (merge : T -> T -> T) (update : T -> T -> T -> T) (modify : T -> M -> T) (push : T -> T -> T -> T * T * T) (obs : T -> V) (vmerge : V -> V -> V) (act : M -> V -> V) (Pending : T -> list M -> Prop), lawful merge update modify push obs vmerge act Pending -> forall (dflt : T) (f : T -> bool) (g : V -> bool), (forall x : T, f x = g (obs x)) -> forall (t : tree T) (vs : list V) (r : nat), RepT obs vmerge act Pending t vs -> r < tn t -> (forall k, k <= r -> vmerge (range vmerge (obs dflt) vs k r) (obs dflt) = range vmerge (obs dflt) vs k r) -> exists t' res tr, lower_bound_rev merge push dflt t r f = Some (t', res, tr) /\\ RepT obs vmerge act Pending t' vs /\\ (forall x, In x tr -> exists k, k <= r /\\ obs x = range vmerge (obs dflt) vs k r)"),
+    ('c02_model_check_spec_check',
+     'forall c : C02.Corr.case, C02.Corr.model_check c = true -> C02.Corr.spec_check c = true'),
+]
 RULE = ("same 10 item types and history shapes as C01 with set:modify:ask:bound about 1:3:1:5, so that most searches run over "
         "lazy tags still pending in the tree; predicates: thresholds aimed at a range aggregate that really occurs (le on min, ge "
         "on max / sum / len, componentwise through the combinator), 'is not a prefix of w' and length thresholds for Concat, "
